@@ -59,8 +59,43 @@ let mode_tx_oracle () =
   done with End_of_file -> ());
   verdict (); flush_out ()
 
+(* ---------------------------------------------------------------- mode flow : NodeFlow + Rx *)
+let item_str (it : rx_item) : string =
+  match it with
+  | Delivered m -> "d " ^ hex m.m_raw
+  | Dropped -> "badcrc"
+  | Faulted _ -> "fault"
+
+let mode_flow () =
+  let st = ref (flow_init, n_of_int 1000000) and rs = ref rx_init in
+  let emit ps = List.iter (fun c -> out ("w " ^ hex c)) (wire_chunks ps) in
+  let step e = let (s, ps) = flow_step !st e in st := s; emit ps in
+  let ni s = n_of_int (int_of_string s) in
+  (try while true do
+    let line = input_line stdin in
+    match split_ws line with
+    | [] -> ()
+    | "case" :: id :: _ -> out ("case " ^ id)
+    | "start" :: _ -> st := (flow_init, n_of_int 1000000); rs := rx_init; out "start 0"
+    | "cap" :: v :: _ -> step (FCap (ni v))
+    | "flush" :: _ -> step FFlush
+    | "time" :: v :: _ -> step (FTime (ni v))
+    | "seqon" :: v :: _ -> step (FSeqOn (v <> "0"))
+    | "reset_nodes" :: _ -> step FReset
+    | "send" :: t :: s :: ss :: ty :: d :: _ -> step (FSend (((ni t, ni s), ni ss), ni ty, unhex d))
+    | "rx" :: h :: _ ->
+        let (((w1, r1), ps), items) = link_rx !st !rs (unhex h) in
+        st := w1; rs := r1; emit ps
+    | "discard" :: _ -> ()
+    | "mark" :: r -> out ("mark " ^ String.concat " " r)
+    | c :: _ when String.length c > 0 && c.[0] = '#' -> ()
+    | c :: _ -> out ("unknown-command " ^ c)
+  done with End_of_file -> ());
+  flush_out ()
+
 let () =
   match Array.to_list Sys.argv with
+  | _ :: "flow" :: _ -> mode_flow ()
   | _ :: "tx" :: _ -> mode_tx ()
   | _ :: "tx-oracle" :: _ -> mode_tx_oracle ()
   | _ -> prerr_endline "usage: model_driver <mode>"; exit 2
